@@ -142,8 +142,10 @@ func GenTree(rng *rand.Rand, maxBlocks int, allowLow bool) *Tree {
 		// choose the parent
 		var parent *block
 		if len(all) > 0 {
-			if v.byz || rng.Intn(12) == 0 {
-				// Byzantine: any block (or genesis); honest validators occasionally see a stale view
+			if v.byz || rng.Intn(2) == 0 {
+				// Byzantine: any block (or genesis). Honest validators are only required never to sign
+				// contradicting headers (checked below), so half of the time they too extend an
+				// arbitrary block - a partial or stale view of the tree
 				if rng.Intn(8) > 0 {
 					parent = all[rng.Intn(len(all))]
 					if rng.Intn(2) == 0 {
